@@ -167,6 +167,8 @@ def run_cross(fam, res: common.Result):
             res.count(f"cross-encoder:shared-components:{o['verdict']}")
         if o["spec"].get("spelling"):
             res.count(f"cross-encoder:spelled-containers:{o['verdict']}")
+        if (o.get("info") or {}).get("unicode_cells"):
+            res.count(f"cross-encoder:boundary-character-cells:{o['verdict']}")
     res.extra["cross_encoder"] = dict(documents=len(outs), differing=len(bad),
                                       note="documents of the whole-encoder correspondence class; the property's oracle "
                                            "and projection are evaluated on the real and the model text where they "
